@@ -170,6 +170,9 @@ pub fn one_script(r: &mut Rng, nlabels: usize, mode: &str) -> (Vec<u64>, Vec<u64
                 cands.push((5, vec![15, eu, su, r.pick(&[1u64, 2, 8, 0])]));
                 cands.push((1, vec![16, eu, su]));
                 cands.push((1, vec![17, eu, su]));
+                if w.link_len(1 - e) > 0 {
+                    cands.push((1, vec![33, eu, su]));
+                }
             }
             if mode.contains("end") {
                 cands.push((1, vec![28, eu, r.below(3)]));
@@ -319,6 +322,9 @@ pub fn bridge_script(r: &mut Rng, nlabels: usize) -> (Vec<u64>, Vec<u64>) {
             cands.push((6, vec![15, 1, 0, r.pick(&[1u64, 2, 8, 8])]));
             cands.push((1, vec![16, 1, 0]));
             cands.push((1, vec![17, 1, 0]));
+            if w.link_len(0) > 0 {
+                cands.push((1, vec![33, 1, 0]));
+            }
         }
         if r.chance(1, 60) {
             cands.push((1, vec![28, r.below(2), r.below(3)]));
